@@ -16,7 +16,7 @@ as MAC) = 73 octets; the answer needs 48 + 28 = 76.
                           (time, DENY, NTS-NAK) fits the request-sized buffer
   `answer_or_internal`    whenever an answer was decided, either it is sent or exactly one "internal error /
                           ignore" entry is recorded — the drop is at least never unaccounted
-  `fits_unless_known_cause`  the property for EVERY request (NTPv3/4/5, plain and NTS) outside the four known
+  `fits_unless_known_cause`  the property for EVERY request (NTPv3/4/5, plain and NTS) outside the known
                           causes: re-encoding lengthens no echoed field (¬F-C17a), the request nonce is at least
                           as long as the answer's (¬F-C17b/c), an NTPv5 request carries the draft
                           identification (¬F-C17d; automatic when it parsed without authentication failure)
@@ -25,6 +25,8 @@ cause (short-uid / short-nonce / short-uid+nonce / v5-no-draft; anything else is
 oracle clause `c17_accounting` checks the accounting hypotheses of the theorem on every parsed request.
 -/
 import NtpVerif.Proofs.ServerFit
+import NtpVerif.Model.ServerReq
+import NtpVerif.Proofs.ServerParse
 
 namespace NtpVerif.C17
 open NtpVerif.Server NtpVerif.RespSize
@@ -189,7 +191,24 @@ theorem plain_fits_partial (cfg : Config) (info : Info) (env : Env) (req : Req) 
           · simp
           · simp [hv, h5]
 
-/-- Hypotheses of `fits_unless_known_cause`, for a request and the answer decided for it. -/
+/-- facts about every request record the parser produces (oracle clause `c17_accounting` checks them on every
+    parsed request; `okDraft`, `draftFact` and `v5len` are theorems about the parser model for `reqOf`,
+    see `reqOf_draft_facts` below and `C22.parserFacts_reqOf`) -/
+structure ReqFacts (req : Req) : Prop where
+  /-- field lengths are 16-bit -/
+  bounded : ∀ b, Field.uid b ∈ req.untrusted ++ req.auth → b.length ≤ 65531
+  /-- a datagram is at most 65535 octets -/
+  udp : req.len ≤ 65535
+  /-- accepted NTPv5 packets are a whole number of words -/
+  v5len : req.version = 5 → req.len % 4 = 0
+  /-- an NTPv5 packet that parsed without authentication failure identifies our draft version -/
+  okDraft : req.parse = .ok → req.version = 5 → req.draftOk = true
+  /-- … and then a draft-identification field of (at least) 23 octets is among its fields -/
+  draftFact : req.version = 5 → req.draftOk = true → ∃ n, 23 ≤ n ∧ Field.draft n ∈ req.untrusted ++ req.auth
+
+/-- Hypotheses of `fits_unless_known_cause`, for a request and the answer decided for it: the request is
+    outside the three remaining known causes (F-C17d is fixed: an NTPv5 request without our draft identification
+    is no longer answered). -/
 structure Outside (req : Req) (r : Response) : Prop where
   /-- the request holds the fields it was parsed into (harness-checked: `c17_accounting`) -/
   accounted : 48 + wireSum (req.untrusted ++ req.auth) + req.encw ≤ req.len
@@ -199,18 +218,11 @@ structure Outside (req : Req) (r : Response) : Prop where
   /-- ¬F-C17b/c: the request's encrypted field is at least as long as one with a 16-octet nonce around the
       same fields (holds when the request nonce has 16 octets or more; harness-checked for those) -/
   nonceLong : req.cookie.isSome = true → encOverhead + wireSum req.enc ≤ req.encw
-  /-- ¬F-C17d: an NTPv5 request carries the draft identification (guaranteed by the parser unless
-      authentication failed; harness-checked) -/
-  draft : req.version = 5 → ∃ n, 23 ≤ n ∧ Field.draft n ∈ req.untrusted ++ req.auth
-  /-- parser facts: field lengths are 16-bit, a datagram is at most 65535 octets, accepted NTPv5 packets are a
-      whole number of words -/
-  bounded : ∀ b, Field.uid b ∈ req.untrusted ++ req.auth → b.length ≤ 65531
-  udp : req.len ≤ 65535
-  v5len : req.version = 5 → req.len % 4 = 0
+  facts : ReqFacts req
 
 /-- **The property outside the known causes.**  For every configuration, synchronisation state, address and
     request (any version, plain or NTS, any field layout): if the policy decides to answer and the request is
-    `Outside` the four known causes, the answer can be serialised into a buffer as long as the request. -/
+    `Outside` the known causes, the answer can be serialised into a buffer as long as the request. -/
 theorem fits_unless_known_cause (cfg : Config) (info : Info) (env : Env) (req : Req) {a reason v nts r}
     (h : handleInner cfg info env req = .answer a reason v nts r) (ho : Outside req r) :
     serialize r req.len ≠ .err := by
@@ -250,7 +262,12 @@ theorem fits_unless_known_cause (cfg : Config) (info : Info) (env : Env) (req : 
     obtain ⟨hstU, hstA⟩ := ho.stable
     have hdraft : (if req.version = 5 then 28 else 0) ≤ draftSum (req.untrusted ++ req.auth) := by
       split
-      · rename_i h5; exact draftSum_ge _ (ho.draft h5)
+      · rename_i h5
+        have hdok : req.draftOk = true := by
+          rcases hsrc with ⟨hp, _⟩ | ⟨hp, _⟩
+          · exact ho.facts.okDraft hp h5
+          · exact handleInner_answer_draft h hp
+        exact draftSum_ge _ (ho.facts.draftFact h5 hdok)
       · omega
     -- size of the extension-field area
     have hsize : 48 + efSize r ≤ req.len := by
@@ -288,7 +305,7 @@ theorem fits_unless_known_cause (cfg : Config) (info : Info) (env : Env) (req : 
         rcases hfields f hf with ⟨b, hfb, hmem⟩ | hok
         · subst hfb
           simp only [RField.frameOk, RField.dataLen, RespSize.frameOk]
-          exact decide_eq_true (ho.bounded b hmem)
+          exact decide_eq_true (ho.facts.bounded b hmem)
         · exact hok
       have hci : ((r.auth.isEmpty && r.enc.isEmpty) || r.cipher || decide (r.hdr.version = 3)) = true := by
         rcases hcipher with hc | ⟨ha, he⟩
@@ -312,8 +329,8 @@ theorem fits_unless_known_cause (cfg : Config) (info : Info) (env : Env) (req : 
             · simp only [hd]
               split
               · rename_i hcond
-                have h4 := ho.v5len (hv ▸ hcond.1)
-                have hudp := ho.udp
+                have h4 := ho.facts.v5len (hv ▸ hcond.1)
+                have hudp := ho.facts.udp
                 have hid := next4_id (req.len - (48 + efSize r)) (by omega)
                 split
                 · simp
@@ -323,6 +340,56 @@ theorem fits_unless_known_cause (cfg : Config) (info : Info) (env : Env) (req : 
                     · omega
                     · simp
               · simp
+
+/-- The draft-identification facts of `ReqFacts` are theorems about the parser model: they hold for every request
+    record `reqOf` derives from `Packet.parse`. -/
+theorem reqOf_draft_facts (dec : Wire.Dec) (ks : Wire.KeySet) (data : List UInt8) (fv encw : Nat) :
+    ((reqOf dec ks data fv encw).parse = .ok → (reqOf dec ks data fv encw).version = 5 →
+      (reqOf dec ks data fv encw).draftOk = true) ∧
+    ((reqOf dec ks data fv encw).version = 5 → (reqOf dec ks data fv encw).draftOk = true →
+      ∃ n, 23 ≤ n ∧ Field.draft n ∈ (reqOf dec ks data fv encw).untrusted ++ (reqOf dec ks data fv encw).auth) := by
+  have hfind : ∀ (p : Wire.Packet), Wire.draftIdOf p.ef = some Wire.draftVersion →
+      Field.draft 23 ∈ p.ef.untrusted.map fieldOf ++ p.ef.authenticated.map fieldOf := by
+    intro p hd
+    unfold Wire.draftIdOf at hd
+    obtain ⟨f, hf, hs⟩ := List.exists_of_findSome?_eq_some hd
+    cases f <;> simp at hs
+    subst hs
+    have : fieldOf (.draftId Wire.draftVersion) = .draft 23 := by
+      simp only [fieldOf]; congr 1
+    rw [← this, ← List.map_append]
+    exact List.mem_map_of_mem hf
+  have hpk : ∀ (parse : Parse) (p : Wire.Packet) (c : Option Wire.Cookie),
+      (reqOfPacket data.length fv encw parse p c).version = 5 →
+      (reqOfPacket data.length fv encw parse p c).draftOk = true →
+      ∃ n, 23 ≤ n ∧ Field.draft n ∈ (reqOfPacket data.length fv encw parse p c).untrusted ++
+        (reqOfPacket data.length fv encw parse p c).auth := by
+    intro parse p c h5 hd
+    cases hh : p.header with
+    | v3 h => simp [reqOfPacket, versionOf, hh] at h5
+    | v4 h => simp [reqOfPacket, versionOf, hh] at h5
+    | v5 h =>
+      simp only [reqOfPacket, hh, decide_eq_true_eq] at hd
+      exact ⟨23, Nat.le_refl _, hfind p hd⟩
+  unfold reqOf
+  cases hp : Wire.parse dec (.keyset ks) data with
+  | ok p cookie =>
+    have hr : Wire.parseR dec (.keyset ks) data = .ok (p, cookie, true) := by
+      unfold Wire.parse at hp
+      split at hp <;> first | (cases hp; done) | (cases hp; assumption)
+    have hf := ServerParse.parseR_facts hr
+    refine ⟨?_, hpk _ _ _⟩
+    intro _ h5
+    cases hh : p.header with
+    | v3 h => simp [reqOfPacket, versionOf, hh] at h5
+    | v4 h => simp [reqOfPacket, versionOf, hh] at h5
+    | v5 h =>
+      rw [hh] at hf
+      simp [reqOfPacket, hh, hf.2 rfl]
+  | decryptErr p => exact ⟨fun h => by simp [reqOfPacket] at h, hpk _ _ _⟩
+  | err e => exact ⟨fun _ h5 => by simp [reqNone] at h5, fun h5 => by simp [reqNone] at h5⟩
+  | panic => exact ⟨fun _ h5 => by simp [reqNone] at h5, fun h5 => by simp [reqNone] at h5⟩
+  | fuel => exact ⟨fun _ h5 => by simp [reqNone] at h5, fun h5 => by simp [reqNone] at h5⟩
 
 /-- An answer that was decided on is either sent, or its loss is recorded as exactly one
     "internal error / ignore" entry (or the serialiser panicked, excluded by C22 under its assumptions). -/
@@ -363,8 +430,8 @@ def reqNts : Req :=
 /-- it is `Outside` the known causes with respect to its (NTS) DENY answer, which is non-trivial: identifier
     echoed under the s2c key -/
 example : ∃ r, ntsDenyResponse reqNts = .ok r ∧ Outside reqNts r ∧ efSize r = 36 + 40 := by
-  refine ⟨_, rfl, ⟨by decide, ⟨by decide, by decide⟩, fun _ => by decide, fun h => absurd h (by decide), ?_, by decide,
-    fun h => absurd h (by decide)⟩, by decide⟩
+  refine ⟨_, rfl, ⟨by decide, ⟨by decide, by decide⟩, fun _ => by decide,
+    ⟨?_, by decide, fun h => absurd h (by decide), fun _ h => absurd h (by decide), fun h => absurd h (by decide)⟩⟩, by decide⟩
   intro b hb
   have : b = List.replicate 32 7 := by simpa [reqNts] using hb
   subst this; decide
@@ -378,4 +445,5 @@ end NtpVerif.C17
 #print axioms NtpVerif.C17.counterexample
 #print axioms NtpVerif.C17.plain_fits_partial
 #print axioms NtpVerif.C17.fits_unless_known_cause
+#print axioms NtpVerif.C17.reqOf_draft_facts
 #print axioms NtpVerif.C17.answer_or_internal
